@@ -1035,3 +1035,12 @@ def describe(case):
     votes = {tuple((f'c{c}', g) for c, g in b): w for b, w in case['votes']}
     return f"{op} on {{frozenset(k): n for k, n in {votes!r}.items()}} with " + \
         json.dumps({k: v for k, v in strip_case(case).items() if k not in ('votes', 'op')})
+
+
+REQUIRED = ['pav_eq_spec']
+UNPROVED = []
+NOT_VERIFIED = []
+RULE = ''
+TECHNIQUE = ''
+LEVEL_TEXT = ''
+LEVEL_NOTE = ''
